@@ -60,7 +60,9 @@ func newWorld(sim *verifsim.Sim) *World {
 	worldCtr++
 	// fixed-length path: the path is part of commands and log records, so its
 	// length must not differ between a run and its replay in another process
-	dir := filepath.Join(ScratchRoot(), fmt.Sprintf("dsim-w-%010d", os.Getpid()))
+	// ... and unique per run, so that descriptors leaked by an earlier run of
+	// this process can never be mistaken for this run's
+	dir := filepath.Join(ScratchRoot(), fmt.Sprintf("dsim-w-%010d-%07d", os.Getpid(), worldCtr))
 	os.RemoveAll(dir)
 	must(os.MkdirAll(filepath.Join(dir, "cache"), 0755))
 	must(os.MkdirAll(filepath.Join(dir, "home", ".ssh"), 0755))
